@@ -1,3 +1,6 @@
+#if !(defined(ARDUINOJSON_ENABLE_ARDUINO_STRING) && ARDUINOJSON_ENABLE_ARDUINO_STRING)
+#  include "lib_heap.hpp"  // must come first: counts the library's own malloc/realloc/free calls
+#endif
 #include "hx.hpp"
 #include "hx_fault.hpp"
 #include "hx_limits.hpp"
